@@ -217,6 +217,12 @@ theorem C03_setslice_is_list_slice_assignment_in_view (s : Sig) (c c' : Cfg) (k 
     refine ⟨i.toNat, (Int.toNat_of_nonneg h0).symm, hpos i.toNat ?_⟩
     omega
 
+/-- Non-vacuity: `cfg[2::-1] = [7, 8, 9]` on `f(p=…, q=…, r=…)` is accepted and reverses into place. -/
+private def sg3 : Sig := [{ name := "p", kind := .pk, dflt := true }, { name := "q", kind := .pk, dflt := true },
+  { name := "r", kind := .pk, dflt := true }]
+example : ((({} : Cfg).setSlice sg3 { start := some 2, step := some (-1) } [.v 7, .v 8, .v 9]).toOption.map
+    (fun c' => sg3.allPositional c'.args)) = some [.v 9, .v 8, .v 7] := by decide
+
 /-! ### Attribute edits behave like a dict restricted to the signature -/
 
 /-- A name is accepted by `setattr` exactly when it names a keyword-capable parameter, or the
